@@ -29,7 +29,7 @@ THEOREMS = [
     "Lena.C10.interleave_law",
     "Lena.C10.interleave_out",
     "Lena.C10.selected_independent",
-    "Lena.C10.selected_independent'",
+    "Lena.C10.selected_independent_of_pattern",
     "Lena.C10.unselected_same_objects_in_order",
     "Lena.C10.state_untouched_by_unselected",
     "Lena.C10.every_flow_is_an_interleaving",
